@@ -50,6 +50,8 @@ def run(ctx, rep):
                 steps.append(("enc", c, d, r)); want.append((F_ENC, [key, [c], d, r]))
             else:
                 d, c = rbytes(rng, rng.randrange(0, 60)), rng.randrange(65536)
+                if rng.random() < 0.7:                       # mostly what an appliance sends: a V2 packet inside
+                    d = F.v2_encode(rng.randrange(2 ** 48), rbytes(rng, rng.randrange(0, 40)))[1]
                 pkt = ctx.model.one(F_BUILD, [[3], key, [c], d, rbytes(rng, 16)])[1][0]
                 steps.append(("dec", pkt)); want.append((F_PROC, [key, pkt]))
                 for _ in range(rng.randrange(0, 3)):        # an altered copy arriving right after the authentic packet
@@ -67,7 +69,11 @@ def run(ctx, rep):
                 if st != 0 or outs[0][0] != stp[1] or outs[1] != stp[2]:
                     rep.fail("oracle", "reference-device-rejects-request:later-in-session", inp, {"packet": bytes(im[1]).hex(), "parsed": [st, outs]})
             if stp[0] == "alt" and im[0] == 0:
-                rep.fail("oracle", "altered-packet-accepted:after-its-original", inp, {"decoded": bytes(im[1]).hex()})
+                # judged where LAN.send sees it (as the bit-flip sweep below): a flip of the type nibble to 'handshake response' makes
+                # _process_packet hand the raw body on unverified - by design; what matters is that no FRAME comes out of it
+                c2, v2 = F.v2_decode(im[1])
+                if c2 == 0:
+                    rep.fail("oracle", "altered-packet-accepted:after-its-original", inp, {"processed": bytes(im[1]).hex(), "frame": bytes(v2).hex()})
             if stp[0] == "dec" and (im[0] != 0 or im[1] != ctx.model.one(F_PROC, [key, stp[1]])[1][0]):
                 rep.fail("oracle", "response-not-decoded-to-payload:later-in-session", inp, {"result": [im[0], str(im[1])[:80]]})
     # ---- responses built by the reference -----------------------------------------------------------
